@@ -8,6 +8,7 @@ import numpy as np
 
 from .. import history, probes
 from ..battery import call, _Raised
+from ..observe import npize
 
 TIERS = {"quick": 800, "thorough": 100000}
 WATCHDOG_S = {"quick": 900, "thorough": 7200}
@@ -159,7 +160,7 @@ def walk_eval(ctx, rng, idx, h, N):
             s0 = np.array([rng.random() for _ in range(N)])
             s0 /= s0.sum()
         T = rng.randint(0, 6)
-        r = call(rw.random_walk_density, h, s0.copy() if rng.random() < 0.8 else s0.tolist(), T)
+        r = call(rw.random_walk_density, h, s0.copy() if rng.random() < 0.8 else s0.tolist(), npize(rng, T))
         if isinstance(r, _Raised):
             ctx.check("C18:density", False, f"C18:random_walk_density:raised:{type(r.e).__name__}", lambda: wit(r))
             continue
